@@ -79,6 +79,14 @@ def model (toks : List String) : String :=
         match r with
         | [b] => pure (render (rangeRun s e (optNat b)))
         | _ => none).getD "bad-op"
+  -- the same materialised range node run a second time under another variable context (bounds = variables of the
+  -- enclosing record, as in a correlated subquery): the second run is the range of the second bounds
+  | [ "range2" :: rest ] =>
+    (do let (_, r) ← parseValue rest
+        let (_, r) ← parseValue r
+        let (s, r) ← parseValue r
+        let (e, _) ← parseValue r
+        pure (render (rangeRun s e none))).getD "bad-op"
   | ["poll", budget] :: secs =>
     match parseRounds secs with
     | some rounds => render (pollRun clock rounds (optNat budget))
@@ -289,6 +297,12 @@ def judge (toks : List String) (out : List String) : String :=
             match r with
             | [b] => pure (judgeRange s e (optNat b) status outMsgs)
             | _ => none).getD "bad unparsable-op"
+      | [ "range2" :: rest ] =>
+        (do let (_, r) ← parseValue rest
+            let (_, r) ← parseValue r
+            let (s, r) ← parseValue r
+            let (e, _) ← parseValue r
+            pure (judgeRange s e none status outMsgs)).getD "bad unparsable-op"
       | ["poll", budget] :: secs =>
         match parseRounds secs with
         | some rounds => judgePoll rounds (optNat budget) status outMsgs
